@@ -331,3 +331,24 @@ func VerifC01ChainAPI() {
 	v = map[string]any{"z": vsymUF("f_z", vFold(v))}
 	vassert(vMapEq(out, v), "chain result is the sequential composition of its stages (parallel stages merged by key)")
 }
+
+// generic family (thorough): 3 nodes, every subset of the 12 possible plain edges, optional 2-way branch on a,
+// symbolic step limit; graphs that do not compile are skipped
+func VerifC01Generic() {
+	nodes := []string{"a", "b", "c"}
+	g := &vG{nodes: nodes}
+	cands := [][2]string{{START, "a"}, {START, "b"}, {START, "c"}, {"a", "b"}, {"a", "c"}, {"a", END}, {"b", "a"}, {"b", "c"}, {"b", END}, {"c", "a"}, {"c", "b"}, {"c", END}}
+	n := 0
+	for _, e := range cands {
+		if vchoose("edge", 2) == 1 {
+			g.edges = append(g.edges, e)
+			n++
+		}
+	}
+	vassume(n >= 2 && n <= 6)
+	if vchoose("branch", 2) == 1 {
+		g.branches = []vBranch{{"a", []string{"b", END}}}
+	}
+	limit := vrange("limit", 2, 5)
+	c01Check(g, limit, false)
+}
